@@ -13,9 +13,9 @@ func (p *ParserPlanner) json(ctx *shared.PlannerContext) (sql.ISelect, error) {
 		return nil, err
 	}
 
-	jsonPaths := make([][]string, len(p.Vals))
+	jsonPaths := make([][]any, len(p.Vals))
 	for i, val := range p.Vals {
-		jsonPaths[i], err = shared.JsonPathParamToArray(val)
+		jsonPaths[i], err = shared.JsonPathParamToTypedArray(val)
 		if err != nil {
 			return nil, err
 		}
@@ -38,7 +38,7 @@ func (p *ParserPlanner) json(ctx *shared.PlannerContext) (sql.ISelect, error) {
 type sqlJsonParser struct {
 	col    sql.SQLObject
 	labels []string
-	paths  [][]string
+	paths  [][]any
 }
 
 func (s *sqlJsonParser) String(ctx *sql.Ctx, opts ...int) (string, error) {
@@ -61,7 +61,7 @@ func (s *sqlJsonParser) String(ctx *sql.Ctx, opts ...int) (string, error) {
 		strings.Join(strVals, ",")), nil
 }
 
-func (s *sqlJsonParser) path2Sql(path []string, ctx *sql.Ctx, opts ...int) (string, error) {
+func (s *sqlJsonParser) path2Sql(path []any, ctx *sql.Ctx, opts ...int) (string, error) {
 	colName, err := s.col.String(ctx, opts...)
 	if err != nil {
 		return "", err
@@ -70,15 +70,22 @@ func (s *sqlJsonParser) path2Sql(path []string, ctx *sql.Ctx, opts ...int) (stri
 	res := make([]string, len(path))
 	for i, part := range path {
 		var err error
-		res[i], err = (sql.NewStringVal(part)).String(ctx, opts...)
+		switch part.(type) {
+		case int:
+			// array index: JSONExtract* indexes are 1-based integers
+			res[i] = fmt.Sprintf("%d", part.(int)+1)
+		default:
+			res[i], err = (sql.NewStringVal(fmt.Sprintf("%v", part))).String(ctx, opts...)
+		}
 		if err != nil {
 			return "", err
 		}
 	}
-	partId := fmt.Sprintf("jp_%d", ctx.Id())
+	// the whole path is repeated: an alias would only name its last element
+	strPath := strings.Join(res, ",")
 
-	return fmt.Sprintf(`if(JSONType(%[3]s, %[1]s as %[2]s) == 'String', `+
-		`JSONExtractString(%[3]s, %[2]s), `+
-		`JSONExtractRaw(%[3]s, %[2]s)`+
-		`)`, strings.Join(res, ","), partId, colName), nil
+	return fmt.Sprintf(`if(JSONType(%[2]s, %[1]s) == 'String', `+
+		`JSONExtractString(%[2]s, %[1]s), `+
+		`JSONExtractRaw(%[2]s, %[1]s)`+
+		`)`, strPath, colName), nil
 }
